@@ -241,7 +241,9 @@ def rule_r3(facts, rep, rid="C15-R3"):
     pj = facts.fn("Projector::with")
     st = [x for x in fb.walk(pj.body) if x.get("k") == "struct" and fb.norm(x.get("def", "")).endswith("Projector")]
     key = pj.def_ + "|keeps-parent"
-    okp = any(fl["name"] == "parent" and "self.parent" in fb.show(fl["e"]).replace(" ", "") for s in st for fl in s["fields"])
+    cpj = ctx(pj)
+    okp = any(fl["name"] == "parent" and ("self.parent" in fb.show(fl["e"]).replace(" ", "") or {("field", "parent"), ("param", "self")} <= cpj.vprov(fl["e"]))
+              for s in st for fl in s["fields"])
     if okp:
         rep.ok(rid, key, "with(level) copies self.parent", pj.loc)
     else:
